@@ -48,8 +48,6 @@ func (f *DefaultFanController) VerifSetLastSetPwm(v int) { f.lastSetPwm = &v }
 
 func (f *DefaultFanController) VerifClearLastSetPwm() { f.lastSetPwm = nil }
 
-func (f *DefaultFanController) VerifMinPwmOffset() int { return f.minPwmOffset }
-
 func (f *DefaultFanController) VerifCalculateTargetPwm() (int, error) {
 	return f.calculateTargetPwm()
 }
